@@ -144,6 +144,33 @@ def one(acc, spec, L, stack, scheme, eps, with_cfg=True):
     check(acc, tup(spec), L, tuple(stack), scheme, eps, with_cfg)
 
 
+def replace_family():
+    """PDAs with two stack symbols built from: one push on epsilon input, TWO replace moves, one pop on epsilon
+    input (n = 2 states, 2 letters, q0 = s0, |F| = 1): the shape in which an intermediate state of the push/pop
+    construction could be shared wrongly between transitions."""
+    import itertools
+    n, k, g = 2, 2, 2
+    E, X = k, g
+    pushes = [(p, E, X, q, v) for p in range(n) for q in range(n) for v in range(g)]
+    reps = [(p, a, u, q, v) for p in range(n) for a in range(k) for u in range(g) for q in range(n) for v in range(g)]
+    pops = [(p, E, u, q, X) for p in range(n) for u in range(g) for q in range(n)]
+    idx = 0
+    for pu in pushes:
+        for r1, r2 in itertools.combinations(reps, 2):
+            if r1[3] != r2[3]:
+                continue                     # both replace moves enter the same state
+            for po in pops:
+                for f in range(n):
+                    yield idx, ('pda', n, k, g, tuple(sorted({pu, r1, r2, po})), 0, 1 << f)
+                    idx += 1
+
+
+def t_replace(acc, L, shard, nshard, stride, offset, with_cfg=False):
+    for idx, spec in replace_family():
+        if idx % stride == offset % stride and (idx // stride) % nshard == shard:
+            check(acc, spec, L, ('x', 'y'), 's', '_', with_cfg)
+
+
 def t_space(acc, n, k, g, t, L, shard, nshard, stride=1, offset=0, stack=('x', 'y'), scheme='s', eps='_', with_cfg=True, fbits=None, tmin=0):
     for idx, spec in pda.pdas(n, k, g, t, fbits=fbits, tmin=tmin):
         if idx % stride == offset % stride and (idx // stride) % nshard == shard:
@@ -158,6 +185,9 @@ def plan(tier, seed):
         tasks.extend(('plain', P, dict({'n': n, 'k': k, 'g': g, 't': t, 'L': L, 'shard': s, 'nshard': ns, 'stride': stride, 'offset': seed}, **kw)) for s in range(ns))
 
     add(1, 1, 1, 3, 4, 2)
+    rs = 4 if tier == 'quick' else 1
+    tasks.extend(('plain', 'mc.props.c10:t_replace', {'L': 2, 'shard': s_, 'nshard': 32, 'stride': rs, 'offset': seed, 'with_cfg': False}) for s_ in range(32))
+    tasks.extend(('plain', 'mc.props.c10:t_replace', {'L': 2, 'shard': s_, 'nshard': 16, 'stride': rs * 16, 'offset': seed, 'with_cfg': True}) for s_ in range(16))
     add(1, 1, 1, 3, 3, 1, stack=['$'], eps='ε')
     add(1, 1, 1, 3, 3, 1, stack=['∅'], eps='')
     add(1, 1, 1, 3, 3, 1, scheme='p')
@@ -171,7 +201,7 @@ def plan(tier, seed):
         add(2, 1, 1, 2, 3, 8, stride=4, stack=['∅'])
         add(3, 1, 1, 2, 3, 8, stride=2, fbits=[7], with_cfg=False)
         add(3, 1, 1, 2, 3, 8, stride=16, fbits=[7])
-        bounds = 'PDA(1,1,1,<=3) all variants; PDA(2,1,1,<=2) all; PDA(2,1,1,3) stride 1/16 (1/4 without PDA->CFG); PDA(2,2,1,<=2), PDA(2,1,2,<=2) stride 1/8; Gamma containing $ / ∅, state names q_accept/q_initial/M1; PDA(3,1,1,<=2) with |F|=3; languages on words <= 4 (k=1) / 3'
+        bounds = 'replace family (one push, two replace moves into one state, one pop; 2 stack symbols, 2 letters) stride 1/4; PDA(1,1,1,<=3) all variants; PDA(2,1,1,<=2) all; PDA(2,1,1,3) stride 1/16 (1/4 without PDA->CFG); PDA(2,2,1,<=2), PDA(2,1,2,<=2) stride 1/8; Gamma containing $ / ∅, state names q_accept/q_initial/M1; PDA(3,1,1,<=2) with |F|=3; languages on words <= 4 (k=1) / 3'
     else:
         add(2, 1, 1, 3, 4, 128, with_cfg=False)
         add(2, 1, 1, 3, 4, 128, stride=4)
@@ -181,7 +211,7 @@ def plan(tier, seed):
         add(2, 1, 1, 3, 3, 32, stride=4, stack=['$'], scheme='p')
         add(2, 1, 1, 3, 3, 32, stride=4, stack=['∅'])
         add(3, 1, 1, 2, 3, 32, fbits=[7, 5, 3])
-        bounds = 'PDA(2,1,1,<=3) all (PDA->CFG on stride 1/4); PDA(2,2,1,<=2) (PDA->CFG 1/2), PDA(2,1,2,<=2); Gamma with $ / ∅ and colliding state names stride 1/4; PDA(3,1,1,<=2) with |F| in {2,3}'
+        bounds = 'replace family all (30 720); PDA(2,1,1,<=3) all (PDA->CFG on stride 1/4); PDA(2,2,1,<=2) (PDA->CFG 1/2), PDA(2,1,2,<=2); Gamma with $ / ∅ and colliding state names stride 1/4; PDA(3,1,1,<=2) with |F| in {2,3}'
     return {'tasks': tasks, 'bounds': {'spaces': bounds}, 'exhaustive': True,
             'rule': 'every labelled PDA in the bounds x {single accepting state, push/pop form, accept on empty stack, PDA->CFG (and with accepts_on_empty_stack=True when the oracle shows the precondition)}; languages by saturation (PDA) / least fixpoint (CFG) on all words up to L; non-trivial = PDA with non-empty language that accepts with a non-empty stack',
             'assumptions': ['CFG/PDA equivalence compared on all words up to the stated length', 'delta is a defaultdict(set) as built by the parser']}
